@@ -6,6 +6,7 @@ import (
 	"encoding/binary"
 	"flag"
 	"fmt"
+	standardrules "github.com/attestantio/dirk/rules/standard"
 	"os"
 	"path/filepath"
 	"runtime"
@@ -288,17 +289,29 @@ func regionSweep(ctx context.Context, run *Runner, fx *Fixture, rng *PRNG, prop 
 			n += 2
 		}
 	}
+	// one store, one instance: while this instance is running, a second one cannot open its store (it would not see
+	// the watermarks written from now on)
+	if second, err := standardrules.New(ctx, standardrules.WithStoragePath(inst.Dir)); err == nil {
+		*monFail = append(*monFail, fmt.Sprintf("a second rules service opened the store directory %s of a running instance: two instances on one storage path do not see each other's watermarks", inst.Dir))
+		_ = second.Close(ctx)
+	} else {
+		run.stats["sweep.second-instance-refused"]++
+	}
 	// histories across an upgrade: what a key signed under an early release (records in the legacy format) still
 	// binds it afterwards
 	c := fx.Accounts[2]
-	for vi, v := range []uint64{0, 1, 5, 1 << 40} {
+	for vi, v := range []uint64{0, 1, 5, 1 << 40, 1<<64 - 1} {
+		genesis := v == 1<<64-1 // the last round: the very first vote, 0 -> 0 (slot 0 for proposals)
+		if genesis {
+			v = 0
+		}
 		hm := newSlashingMonitor()
 		_ = inst.Rules.VerifPutRaw(ctx, recKey(c.Key, 2), encodeAtt(-1, -1))
 		_ = inst.Rules.VerifPutRaw(ctx, recKey(c.Key, 3), encodeProp(-1))
 		mk := func(root byte) *Op {
 			if prop == "C01" {
 				return &Op{Kind: KAttest, Client: "client1", IP: "10.0.0.1", Addrs: []Addr{{Name: c.Path()}},
-					Atts: []AttData{{Dom: mkDomain(domAttester, 0), BBR: fill32(root), Src: &Checkpoint{v, fill32(0)}, Tgt: &Checkpoint{v + 1, fill32(root)}}}}
+					Atts: []AttData{{Dom: mkDomain(domAttester, 0), BBR: fill32(root), Src: &Checkpoint{v, fill32(0)}, Tgt: &Checkpoint{v + map[bool]uint64{true: 0, false: 1}[genesis], fill32(root)}}}}
 			}
 			return &Op{Kind: KPropose, Client: "client1", IP: "10.0.0.1", Addrs: []Addr{{Name: c.Path()}},
 				Props: []PropData{{Dom: mkDomain(domProposer, 0), Slot: v, Pidx: 1, Parent: fill32(0), State: fill32(root), Body: fill32(root)}}}
